@@ -636,7 +636,7 @@ func main() {
 		defer func() {
 			if r := recover(); r != nil {
 				// a harness error is not agreement: report it as a broken check
-				fmt.Fprintf(os.Stderr, "HARNESS ERROR: %v\n", r)
+				fmt.Fprintf(os.Stderr, "HARNESS ERROR: %v\n%s\n", r, debug.Stack())
 				if os.Getenv("VH_STACK") != "" || os.Getenv("VH_DEBUG") != "" {
 					os.Stderr.Write(debug.Stack())
 				}
